@@ -9,7 +9,7 @@ git -C /repo worktree remove --force $R >/dev/null 2>&1; rm -rf $R
 git -C /repo worktree add -q $R HEAD || exit 2
 git -C $R apply $PATCH || { echo "PATCH-DOES-NOT-APPLY"; git -C /repo worktree remove --force $R; exit 3; }
 git -C /verif worktree remove --force $V >/dev/null 2>&1; rm -rf $V
-git -C /verif worktree add -q --detach $V HEAD || exit 2
+git -C /verif worktree add -q --detach $V ${MT_REF:-HEAD} || exit 2
 for f in $V/harness/qv-core/Cargo.toml $V/harness-udp/Cargo.toml $V/harness-codec/Cargo.toml $V/harness-async/Cargo.toml; do
   sed -i "s#\"/repo/#\"$R/#g" $f
 done
